@@ -240,6 +240,30 @@ def run(ctx):
             must_raise("STRINGN.decode", p.STRINGN.decode, data)
         for data in [b"\x01", b"\x01eng", b"\x01eng\xd0", b"\x01eng\x01\x04\x00\x01\x00a", b"\x02eng\xda\x04\x00\x01a", b"\x01eng\xd0\x04\x00\x05\x00ab"]:
             must_raise("STRINGI.decode", p.STRINGI.decode, data)
+        # The other side of "BufferEmptyError only when no bytes remain where a value should start": a COMPLETE encoding of a
+        # boundary value - nothing is missing - must decode, and an unbounded array over whole elements returns exactly those
+        # elements, also when one of them is empty.
+        def must_decode(label, fn, data, want):
+            res.ev()
+            res.seen("special-ok", label)
+            st, out = budget.call(BUDGET, fn, data)
+            if st != "ok":
+                res.violation(f"complete-encoding-rejected:{label}:{type(out).__name__ if st == 'exc' else st}",
+                              f"{label}({bytes(data).hex()}) raised {out!r:.120} although the buffer holds a complete value ({want!r:.60})", None)
+            elif out != want:
+                res.violation(f"complete-encoding-wrong:{label}", f"{label}({bytes(data).hex()}) = {out!r:.120}, expected {want!r:.80}", None)
+
+        for cs in (1, 2, 4):
+            must_decode("STRINGN.decode", p.STRINGN.decode, cs.to_bytes(2, "little") + b"\x00\x00", "")
+        enc_ = {1: "utf-8", 2: "utf-16-le", 4: "utf-32-le"}
+        for cs in (1, 2, 4):
+            buf = b"".join(cs.to_bytes(2, "little") + len(s_).to_bytes(2, "little") + s_.encode(enc_[cs]) for s_ in ("ab", "", "cd", ""))
+            must_decode("STRINGN[None].decode", p.STRINGN[None].decode, buf, ["ab", "", "cd", ""])
+        must_decode("SHORT_STRING.decode", p.SHORT_STRING.decode, b"\x00", "")
+        must_decode("STRING.decode", p.STRING.decode, b"\x00\x00", "")
+        must_decode("STRING2.decode", p.STRING2.decode, b"\x00\x00", "")
+        must_decode("SHORT_STRING[None].decode", p.SHORT_STRING[None].decode, b"\x02ab\x00\x01c\x00", ["ab", "", "c", ""])
+        must_decode("STRINGI.decode", p.STRINGI.decode, b"\x01eng\xd0\x04\x00\x00\x00", (["" ], ["eng"], [4]))
         from pycomm3 import ModuleIdentityObject
         for bad in [{}, None, 5, {"vendor": "no such vendor"},
                     {"vendor": "ODVA", "product_type": "nope", "product_code": 1, "revision": {"major": 1, "minor": 1}, "status": b"ab", "serial": "00000001", "product_name": "x"},
